@@ -641,6 +641,29 @@ func (p *pkgInfo) emitFacts(o *out) {
 	sort.Strings(finiteOnly)
 	o.line("def finiteOnlyFunctions : List String := %s", leanStrList(finiteOnly))
 
+	// what each exported constructor with result type Number can return (C17): followed through
+	// package-level helpers, variables and local assignments down to the literals —
+	// "opaque" (&opqNumber{…}), "finite" (&FiniteNumber{…} with fields), "zero" (&FiniteNumber{}), "nil"
+	var ctorRows []string
+	for _, k := range p.order {
+		fd := p.funcs[k]
+		if fd.Recv != nil || !ast.IsExported(fd.Name.Name) || fd.Body == nil || fd.Type.Results == nil || len(fd.Type.Results.List) == 0 {
+			continue
+		}
+		if id, ok := fd.Type.Results.List[0].Type.(*ast.Ident); !ok || id.Name != "Number" {
+			continue
+		}
+		ks := p.returnKinds(fd, map[string]bool{})
+		var names []string
+		for x := range ks {
+			names = append(names, x)
+		}
+		sort.Strings(names)
+		ctorRows = append(ctorRows, "("+leanStr(fd.Name.Name)+", "+leanStrList(names)+")")
+	}
+	sort.Strings(ctorRows)
+	o.line("def numberConstructorKinds : List (String × List String) := [%s]", strings.Join(ctorRows, ", "))
+
 	// exported functions and methods with their signatures
 	var api []string
 	for _, k := range p.order {
@@ -715,4 +738,135 @@ func leanStrList(xs []string) string {
 		qs = append(qs, leanStr(x))
 	}
 	return "[" + strings.Join(qs, ", ") + "]"
+}
+
+// returnKinds: the kinds of value the first result of fd can be (see numberConstructorKinds)
+func (p *pkgInfo) returnKinds(fd *ast.FuncDecl, busy map[string]bool) map[string]bool {
+	out := map[string]bool{}
+	if fd.Body == nil || busy[fd.Name.Name] || len(busy) > 12 {
+		out["?"+fd.Name.Name] = true
+		return out
+	}
+	busy[fd.Name.Name] = true
+	defer delete(busy, fd.Name.Name)
+	params := map[string]bool{}
+	if fd.Type.Params != nil {
+		for _, f := range fd.Type.Params.List {
+			for _, n := range f.Names {
+				params[n.Name] = true
+			}
+		}
+	}
+	// local assignments: name -> right-hand sides (a multi-value call assigns its first result to the first name)
+	assigned := map[string][]ast.Expr{}
+	walkNoFuncLit(fd.Body, func(n ast.Node) {
+		switch st := n.(type) {
+		case *ast.AssignStmt:
+			for i, l := range st.Lhs {
+				id, ok := l.(*ast.Ident)
+				if !ok {
+					continue
+				}
+				if len(st.Rhs) == len(st.Lhs) {
+					assigned[id.Name] = append(assigned[id.Name], st.Rhs[i])
+				} else if i == 0 && len(st.Rhs) == 1 {
+					assigned[id.Name] = append(assigned[id.Name], st.Rhs[0])
+				} else if len(st.Rhs) == 1 {
+					assigned[id.Name] = append(assigned[id.Name], nil)
+				}
+			}
+		case *ast.ValueSpec:
+			for i, id := range st.Names {
+				if i < len(st.Values) {
+					assigned[id.Name] = append(assigned[id.Name], st.Values[i])
+				} else {
+					assigned[id.Name] = append(assigned[id.Name], nil)
+				}
+			}
+		}
+	})
+	var kinds func(e ast.Expr, depth int)
+	kinds = func(e ast.Expr, depth int) {
+		if e == nil || depth > 8 {
+			out["?"] = true
+			return
+		}
+		switch x := e.(type) {
+		case *ast.ParenExpr:
+			kinds(x.X, depth+1)
+		case *ast.UnaryExpr:
+			if cl, ok := x.X.(*ast.CompositeLit); ok && x.Op == token.AND {
+				tn := p.src(cl.Type)
+				switch {
+				case tn == "opqNumber":
+					out["opaque"] = true
+				case tn == "FiniteNumber" && len(cl.Elts) == 0:
+					out["zero"] = true
+				case tn == "FiniteNumber":
+					out["finite"] = true
+				default:
+					out["lit:"+tn] = true
+				}
+				return
+			}
+			out["?"] = true
+		case *ast.Ident:
+			switch {
+			case x.Name == "nil":
+				out["nil"] = true
+			case params[x.Name]:
+				out["param"] = true
+			case len(assigned[x.Name]) > 0:
+				for _, r := range assigned[x.Name] {
+					kinds(r, depth+1)
+				}
+			case p.vars[x.Name] != nil:
+				kinds(p.vars[x.Name], depth+1)
+			default:
+				out["?"+x.Name] = true
+			}
+		case *ast.CallExpr:
+			id, ok := x.Fun.(*ast.Ident)
+			callee := (*ast.FuncDecl)(nil)
+			if ok {
+				callee = p.funcs[id.Name]
+			}
+			if callee == nil || callee.Recv != nil {
+				out["?call:"+p.src(x.Fun)] = true
+				return
+			}
+			sub := p.returnKinds(callee, busy)
+			// a wrapper that hands its argument back only when it is wrapped already
+			if sub["opaque"] && sub["param"] {
+				delete(sub, "param")
+			}
+			for k := range sub {
+				out[k] = true
+			}
+		default:
+			out["?"] = true
+		}
+	}
+	walkNoFuncLit(fd.Body, func(n ast.Node) {
+		if r, ok := n.(*ast.ReturnStmt); ok {
+			if len(r.Results) == 0 {
+				out["?bare-return"] = true
+			} else {
+				kinds(r.Results[0], 0)
+			}
+		}
+	})
+	return out
+}
+
+func walkNoFuncLit(n ast.Node, f func(ast.Node)) {
+	ast.Inspect(n, func(m ast.Node) bool {
+		if _, ok := m.(*ast.FuncLit); ok {
+			return false
+		}
+		if m != nil {
+			f(m)
+		}
+		return true
+	})
 }
